@@ -87,6 +87,9 @@ class GhostProto:
 def clear_caches():
     M = modules()
     M['thresha']._recombination_vector.cache_clear(); M['thresha']._f_S_i.cache_clear()
+    for nm in ('_SecFld', '_SecInt', '_SecFxp', '_SecFlt'):        # secure types depend on the runtime (m, k) they were made under
+        c = getattr(M['sectypes'], nm, None)
+        if c is not None and hasattr(c, 'cache_clear'): c.cache_clear()
 
 
 def make_parties(m, t, no_prss=False, k=8, keys=None):
